@@ -1,8 +1,8 @@
 """C06 — the OpenAPI document for version v lists exactly what is served at v."""
 import re
 
-from .lib import PLUMBING, callee_allow, closure_args_of_call, lit_strs, operand_local, root_fn
-from .lib_c08 import Flow, Origins, field_reads, field_writes, gen_role
+from .lib import PLUMBING, callee_allow, closure_args_of_call, lit_strs, operand_local, switches_on_value
+from .lib_c08 import Flow, Origins, map_stores, mutators, field_reads, field_writes, gen_role, root_of
 
 LEVEL = "other"
 TECHNIQUE = ("static analysis: source/sink flow and per-iteration edge dominance on gen_openapi's MIR, sibling agreement between the document iterator and the router, "
@@ -29,6 +29,7 @@ GEN = r"^api_description::ApiDescription::<Context>::gen_openapi$"
 ASG = "api_description::ApiSchemaGenerator"
 EP = "api_description::ApiEndpoint"
 MATCHES = r"^api_description::ApiEndpointVersions::matches$"
+ENDPOINTS = r"^router::HttpRouter::<Context>::endpoints$"
 
 # who may read ApiEndpoint.visible (one reason per line)
 VISIBLE_READERS = {
@@ -66,8 +67,20 @@ class _Model:
         ret = g.slice({"l": 0, "p": []})
         cands = [l for l in ret.locals() if g.local_ty(l) == "openapiv3::OpenAPI" and g.local_name(l)]
         self.doc = cands[0] if len(cands) == 1 else None
-        nx = [(bb, t) for bb, t in g.live_calls(r"iter::Iterator::next$") if "HttpRouterIter" in (t.get("resolved") or "")]
-        self.next = nx[0] if len(nx) == 1 else None
+        self.pflow = Flow(ds, entries=[g.raw["id"]], precise=True)     # projection-carrying, mutation-aware (accumulators filled in loops)
+        # the operation loop, by role: the loop whose item is the key of `openapi.paths.paths.entry(..)` and whose
+        # iterator comes from router.endpoints(..) (directly or through adaptors such as `.filter(..)`)
+        self.path_entries = []
+        nx = {}
+        if self.doc is not None:
+            for bb, t in g.live_calls(r"indexmap::IndexMap::<K, V, S>::entry$"):
+                o = self.flow.origins(g, t["args"][0])
+                if ("openapiv3::Paths", "paths") in o.fields and (g.id, self.doc) in o.locals:
+                    self.path_entries.append((bb, t))
+                    for c, nbb, nt in g.slice(t["args"][1]).calls(r"iter::Iterator::next$"):
+                        if any(re.search(ENDPOINTS, c2) for c2 in self.flow.origins(g, nt["args"][0]).calls):
+                            nx[nbb] = nt
+        self.next = list(nx.items())[0] if len(nx) == 1 else None
 
     def item_comp(self, f, op, item_local):
         """Tuple components k such that op is computed from (item as Some).0.k"""
@@ -257,24 +270,40 @@ def r1_same_filter(ctx):
     o1 = flh.origins(f, t["args"][1])
     ctx.check(R, "filter-tests-handler-versions", (EP, "versions") in o0.fields and 2 in f.slice(t["args"][0]).params(), "matches() receiver is the candidate handler's `versions`", (f, bb))
     ctx.check(R, "filter-tests-iterator-version", o1.roots == {(ihf.id, 2)} and not _plumbing_only(o1), "matches() argument is iter_handlers_from_node's version (origin %s)" % sorted(o1.roots), (f, bb))
-    sw = [(sb, st) for sb, st in f.switches() if operand_local(st["discr"]) == t["dest"]["l"]]
-    thens = [(tb_, tt) for tb_, tt in f.live_calls(r"<impl bool>::(then|then_some)$") if operand_local(tt["args"][0]) == t["dest"]["l"]]
-    if len(sw) == 1 and not thens:
-        tb, fb = _bool_targets(f, sw[0][0])
-        somes = [(b, s) for b, i, s in f.aggregates(r"^std::option::Option$", "Some") if s["pl"]["l"] == 0 and not s["pl"]["p"]]
-        nones = [(b, s) for b, i, s in f.aggregates(r"^std::option::Option$", "None") if s["pl"]["l"] == 0 and not s["pl"]["p"]]
-        ok = bool(somes) and all(f.edge_dominates(sw[0][0], tb, b) for b, s in somes) and bool(nones) and all(f.edge_dominates(sw[0][0], fb, b) for b, s in nones)
-        ctx.check(R, "filter-keeps-iff-matches", ok, "Some(..) is returned exactly on the true edge of matches() and None on the false edge: %s" % ok, (f, sw[0][0]))
+    # Three idioms keep "a handler iff matches()": `filter_map(|h| if matches {Some(h)} else {None})` (any spelling of the branch:
+    # path facts), `filter_map(|h| matches.then(|| h))`, and `filter(|h| matches)` [+ `map`] where the predicate IS the test.
+    dest = t["dest"]["l"]
+    ret = {"k": "copy", "pl": {"l": 0, "p": []}}
+    thens = [(tb_, tt) for tb_, tt in f.live_calls(r"<impl bool>::(then|then_some)$") if operand_local(tt["args"][0]) == dest]
+    somes = [(b, s) for b, i, s in f.aggregates(r"^std::option::Option$", "Some") if s["pl"]["l"] == 0 and not s["pl"]["p"]]
+    nones = [(b, s) for b, i, s in f.aggregates(r"^std::option::Option$", "None") if s["pl"]["l"] == 0 and not s["pl"]["p"]]
+    pred_pol = _polarity(f, ret, leaf=lambda fn, op: not op["pl"]["p"] and op["pl"]["l"] == dest) if f.local_ty(0) == "bool" else None
+    if somes and nones and not thens:
+        ok = all(f.guarded_by(b, atoms_true=[("call", bb)])[0] for b, s in somes) and all(f.guarded_by(b, atoms_false=[("call", bb)])[0] for b, s in nones)
+        ctx.check(R, "filter-keeps-iff-matches", ok, "Some(..) is returned only on paths where matches() is true and None only where it is false: %s" % ok, (f, bb))
         same = all(2 in f.slice(s["rv"]["ops"][0]).params() for b, s in somes)
         ctx.check(R, "filter-yields-tested-handler", same, "the yielded handler is the one whose versions were tested", (f, bb))
-    elif len(thens) == 1 and not sw:
+    elif len(thens) == 1 and not somes:
         tb_, tt = thens[0]
-        ret = f.slice({"l": 0, "p": []})
-        ok = any(b == tb_ for c, b, x in ret.callees) and not callee_allow(ret, PLUMBING + [r"<impl bool>::(then|then_some)$", MATCHES.strip("^$")]) and ("unop", "Not") not in ret.atoms
+        rs = f.slice({"l": 0, "p": []})
+        ok = any(b == tb_ for c, b, x in rs.callees) and not callee_allow(rs, PLUMBING + [r"<impl bool>::(then|then_some)$", MATCHES.strip("^$")]) and ("unop", "Not") not in rs.atoms
         ctx.check(R, "filter-keeps-iff-matches", ok, "the closure returns matches(..).then(..): Some exactly when matches() is true: %s" % ok, (f, tb_))
         ctx.check(R, "filter-yields-tested-handler", 2 in f.slice(tt["args"][1]).params(), "the yielded handler is the one whose versions were tested", (f, bb))
+    elif pred_pol is not None and f.raw["kind"] == "Closure":
+        recv = [(p_, cbb, ct) for p_, pbb, pst in flh.closure_sites(f) for cbb, ct, k in flh.closure_receivers(p_, pst)]
+        isf = bool(recv) and all(re.search(r"iter::Iterator::filter$", ct.get("callee") or "") for p_, cbb, ct in recv)
+        ctx.check(R, "filter-keeps-iff-matches", isf and pred_pol is True,
+                  "the closure is the predicate of Iterator::filter (%s) and returns matches(..) itself (not its negation): %s" % (isf, pred_pol is True), (f, bb))
+        same = bool(recv)
+        for p_, cbb, ct in recv:
+            nb, nt_ = _consumer(p_, ct["dest"]["l"])
+            if nt_ is not None and re.search(r"iter::Iterator::(map|filter_map|flat_map|scan|zip|chain)$", nt_.get("callee") or ""):
+                cl = closure_args_of_call(p_, nt_)
+                same = same and nt_["callee"].endswith("::map") and len(cl) == 1 and 2 in cl[0][0].slice(ret).params() and \
+                    not callee_allow(cl[0][0].slice(ret), PLUMBING)
+        ctx.check(R, "filter-yields-tested-handler", same, "filter yields the tested handler itself and a following `map` only pairs it with the method name: %s" % same, (f, bb))
     else:
-        ctx.lost(R, "the branch on matches()'s result")
+        ctx.lost(R, "how matches()'s result decides what the handler iterator yields (branch, bool::then or filter predicate)")
         return
     # sibling: the router's selection uses the same predicate
     fh = ctx.need_fn(ds, R, r"^router::find_handler_matching_version$")
@@ -334,10 +363,11 @@ def _polarity(f, op, leaf=_is_visible_read, depth=0):
     return None
 
 
-def _visible_guard(m):
-    """(switch bb, publish target, skip target) of the per-endpoint visibility test in the loop."""
+def _visible_guard(m, loop=None):
+    """(switch bb, publish target, skip target) of the per-endpoint visibility test in a loop over
+    router.endpoints(..) (default: the operation loop)."""
     g = m.gen
-    nbb, nt = m.next
+    nbb, nt = loop or m.next
     out = []
     for sb, t in g.switches():
         if sb not in g.reachable(0):
@@ -352,88 +382,186 @@ def _visible_guard(m):
     return out
 
 
-def r2_unpublished(ctx):
-    R = ctx.rule("C06.R2", "nothing derived from an endpoint reaches the document unless that endpoint's `visible` is true (checked per loop iteration and for every iterator-adapter "
-                 "consumer of router.endpoints); `visible` is read nowhere on the routing / serving path", floor=8)
-    m = _model(ctx, R)
-    ds, g = m.ds, m.gen
-    if m.next is None or m.doc is None:
-        ctx.lost(R, "the `for .. in router.endpoints(..)` loop / the returned OpenAPI local of gen_openapi")
-        return
-    nbb, nt = m.next
-    guards = _visible_guard(m)
-    ctx.check(R, "one-visibility-guard", len(guards) == 1, "branches on the iterated endpoint's `visible` in the operation loop: %d" % len(guards), (g, nbb))
-    if len(guards) == 1:
-        sb, pub, skip = guards[0]
-        r = g.reachable(skip, avoid=[nbb])
-        # state that outlives an iteration: named locals of gen_openapi that are mutably borrowed somewhere (document, definitions, generator, error tables)
-        state = set(st["rv"]["pl"]["l"] for b, i, st in g.stmts() if st["rv"]["rv"] == "ref" and st["rv"].get("mut") and g.local_name(st["rv"]["pl"]["l"]))
-        state |= {m.doc}
-        calls, stores = [], []
-        for b in r:
-            t = g.blocks[b]["term"]
-            if t["t"] == "call":
-                for a in t["args"]:
-                    if (g.slice(a, stop_at_calls=r"iter::Iterator::next$").locals() & state) - {nt["dest"]["l"]}:
-                        calls.append((t.get("callee"), b))
-            for st in g.blocks[b]["st"]:
-                if st["s"] == "assign" and (st["pl"]["l"] in state or (st["rv"]["rv"] == "ref" and st["rv"].get("mut") and st["rv"]["pl"]["l"] in state)):
-                    stores.append(b)
-        ctx.check(R, "skip-edge-writes-nothing", not calls and not stores and nbb in g.reachable(skip),
-                  "from the `visible == false` edge the loop continues with the next endpoint (%s) through %d blocks; calls / stores touching the document or the %d other accumulators: %s %s" % (
-                      nbb in g.reachable(skip), len(r), len(state) - 1, calls, stores), (g, sb))
-        body = m.loop_body()
-        unguarded = g.reachable(nbb, avoid_edges=[(sb, pub)])
-        nsites = 0
-        for b in sorted(body):
-            t = g.blocks[b]["term"]
-            if t["t"] == "call" and t["args"]:
-                o = m.flow.origins(g, t["args"][0])
-                if (g.id, m.doc) in o.locals and not re.search(r"Iterator::next$", t.get("callee") or ""):
-                    nsites += 1
-                    ctx.check(R, "doc-write-guarded:%s" % (t.get("callee") or "?").split("::")[-1].split("<")[0], b not in unguarded,
-                              "call %s on the document inside the loop %s reachable in an iteration only through the `visible == true` edge" % (
-                                  t.get("callee"), "is" if b not in unguarded else "is NOT"), (g, b))
-            for st in g.blocks[b]["st"]:
-                if st["s"] == "assign" and st["pl"]["l"] == m.doc and st["pl"]["p"]:
-                    nsites += 1
-                    ctx.check(R, "doc-store-guarded", b not in unguarded, "store into the document inside the loop is guarded by `visible`: %s" % (b not in unguarded), (g, b))
-        ctx.check(R, "doc-write-sites", nsites >= 2, "writes to the document inside the operation loop: %d" % nsites, g, nontrivial=False)
-    # iterator-adapter consumers of endpoints()
+_TERMINALS = ("collect", "for_each", "fold", "count", "last", "sum", "try_for_each", "try_fold", "extend", "from_iter", "any", "all", "find", "find_map", "position")
+
+
+def _endpoint_uses(m):
+    """How each router.endpoints(..) call under gen_openapi is consumed: the adaptor chain applied to it, whether one
+    of the adaptors keeps exactly the `visible` elements (`.filter(|e| e.visible)`: the closure returns the element's
+    `visible`, polarity checked), and where the chain ends: a `for` loop (its Iterator::next call) or a consuming adaptor."""
+    ds = m.ds
+    ret = {"k": "copy", "pl": {"l": 0, "p": []}}
+    out = []
     for f in m.region:
-        for bb, t in f.live_calls(r"^router::HttpRouter::<Context>::endpoints$"):
-            cb, ct = _consumer(f, t["dest"]["l"])
-            if ct is None:
-                ctx.check(R, "endpoints-use:%s:?" % _sfx(f), False, "the consumer of router.endpoints(..) could not be determined", (f, bb))
-                continue
-            kind = (ct.get("callee") or "?").split("::")[-1]
-            if kind == "into_iter":
-                ncb, nct = _consumer(f, ct["dest"]["l"])
-                isloop = nct is not None and re.search(r"Iterator::next$", nct.get("callee") or "")
-                if isloop and m.next and ncb == m.next[0] and f.id == g.id:
-                    continue        # the operation loop, decided above
-            # walk the adapter chain and look for a closure deciding on `visible`
-            cur, cur_t, guard, chain = cb, ct, False, []
-            for _ in range(12):
-                if cur_t is None:
+        for bb, t in f.live_calls(ENDPOINTS):
+            u = {"f": f, "bb": bb, "t": t, "chain": [], "filter_visible": False, "closure_visible": False, "loop": None, "terminal": None, "undetermined": False}
+            cur_t = t
+            for _ in range(14):
+                cb, ct = _consumer(f, cur_t["dest"]["l"])
+                if ct is None:
+                    u["undetermined"] = not u["chain"]
                     break
-                chain.append((cur_t.get("callee") or "?").split("::")[-1])
-                for c, node in closure_args_of_call(f, cur_t):
+                name = (ct.get("callee") or "?").split("::")[-1]
+                if re.search(r"iter::Iterator::next$", ct.get("callee") or ""):
+                    u["loop"] = (cb, ct)
+                    break
+                u["chain"].append(name)
+                for c, node in closure_args_of_call(f, ct):
+                    if name == "filter":
+                        # a filter keeps the element itself: it is a visibility filter iff its predicate IS the element's `visible`
+                        if _polarity(c, ret) is True and 2 in c.slice(ret).params():
+                            u["filter_visible"] = True
+                        continue
                     for cc in [c] + ds.descendants(c):
                         fl = Flow(ds, entries=[cc.raw["id"]])
                         if (EP, "visible") in fl.origins(cc, {"l": 0, "p": []}, control=True).fields:
-                            guard = True
-                if "collect" in chain[-1] or "for_each" in chain[-1]:
+                            u["closure_visible"] = True
+                if name in _TERMINALS:
+                    u["terminal"] = name
                     break
-                cur, cur_t = _consumer(f, cur_t["dest"]["l"])
-            ctx.check(R, "endpoints-use:%s:%s" % (_sfx(f), chain[0] if chain else "?"), guard,
-                      "router.endpoints(..) consumed through %s: %s" % (" . ".join(chain), "a closure of the chain keeps only `visible` endpoints" if guard else
-                                                                     "NO closure of the chain tests `visible` — data of unpublished endpoints flows on (into the document)"), (f, bb))
+                cur_t = ct
+            out.append(u)
+    return out
+
+
+def _use_role(m, u):
+    """Name a use of router.endpoints(..) by where its elements end up, not by closure numbers or adaptor names."""
+    g = m.gen
+    if u["loop"] and m.next and u["f"].id == g.id and u["loop"][0] == m.next[0]:
+        return "operations"
+    if u["f"].id == g.id:
+        for adt, var, field, kind, bb, ops in field_writes(g, m.tw, lambda a: a == "openapiv3::OpenAPI"):
+            if field == "tags" and any((g.id, u["bb"]) in m.pflow.origins(g, op).call_sites for op in ops):
+                return "tags"
+    return "%s:%s" % (_sfx(u["f"]), u["chain"][0] if u["chain"] else "?")
+
+
+def _loop_state(m):
+    """State that outlives an iteration: named locals of gen_openapi that are mutably borrowed somewhere
+    (document, definitions, generator, error tables, accumulators) and the document itself."""
+    g = m.gen
+    state = set(st["rv"]["pl"]["l"] for b, i, st in g.stmts() if st["rv"]["rv"] == "ref" and st["rv"].get("mut") and g.local_name(st["rv"]["pl"]["l"]))
+    return state | {m.doc}
+
+
+def _loop_blocks(g, nbb):
+    fwd = g.reachable(nbb)
+    return set(b for b in fwd if nbb in g.reachable(b) and not g.blocks[b]["cleanup"])
+
+
+def _some_target(g, nt):
+    """Block where an iteration starts: the Some edge of the switch on Iterator::next's result."""
+    for sb, t in g.switches():
+        info = g.switch_on(sb)
+        if info["kind"] == "discr" and info["place"]["l"] == nt["dest"]["l"] and not info["place"]["p"]:
+            some = [i for i, n in info["variants"].items() if n == "Some"]
+            if some:
+                return g.switch_target(sb, some[0])
+    return None
+
+
+def _published_start(m, uses=None):
+    """Block from which every iteration of the operation loop for a *published* endpoint starts, and how that is
+    known: ("guard", switch bb, block) for an in-loop test of `visible`; ("filter", None, block) when the iterator
+    was filtered on `visible` before the loop.  None if neither holds."""
+    g = m.gen
+    if m.next is None:
+        return None
+    uses = uses if uses is not None else _endpoint_uses(m)
+    mine = [u for u in uses if u["f"].id == g.id and u["loop"] and u["loop"][0] == m.next[0]]
+    if mine and mine[0]["filter_visible"]:
+        b = _some_target(g, m.next[1])
+        return ("filter", None, b) if b is not None else None
+    guards = _visible_guard(m)
+    if len(guards) == 1:
+        return ("guard", guards[0][0], guards[0][1])
+    return None
+
+
+def r2_unpublished(ctx):
+    R = ctx.rule("C06.R2", "nothing derived from an endpoint reaches the document unless that endpoint's `visible` is true: every consumer of router.endpoints(..) either filters the "
+                 "iterator on the element's `visible` before anything else sees it, or (a `for` loop) tests it per iteration before any write to state that outlives the iteration; "
+                 "`visible` is read nowhere on the routing / serving path", floor=8)
+    m = _model(ctx, R)
+    ds, g = m.ds, m.gen
+    if m.next is None or m.doc is None:
+        ctx.lost(R, "the loop over router.endpoints(..) whose items become `paths` entries / the returned OpenAPI local of gen_openapi")
+        return
+    uses = _endpoint_uses(m)
+    state = _loop_state(m)
+    seen_op = False
+    for u in uses:
+        f = u["f"]
+        role = _use_role(m, u)
+        is_op = role == "operations"
+        sfx = "" if is_op else ":" + role
+        if u["undetermined"]:
+            ctx.check(R, "endpoints-use:%s" % role, False, "the consumer of router.endpoints(..) could not be determined", (f, u["bb"]))
+            continue
+        via = " . ".join(["endpoints"] + u["chain"] + (["for-loop"] if u["loop"] else []))
+        if not (u["loop"] and f.id == g.id):
+            # consumed entirely by iterator adaptors
+            guard = u["filter_visible"] or u["closure_visible"]
+            ctx.check(R, "endpoints-use:%s" % role, guard,
+                      "router.endpoints(..) consumed through %s: %s" % (via, "a closure of the chain keeps only `visible` endpoints" if guard else
+                                                                     "NO closure of the chain keeps only `visible` endpoints — data of unpublished endpoints flows on (into the document)"), (f, u["bb"]))
+            continue
+        nbb, nt = u["loop"]
+        seen_op = seen_op or is_op
+        body = _loop_blocks(g, nbb)
+        item = nt["dest"]["l"]
+        it_locals = g.slice(nt["args"][0]).locals()
+
+        def touches_state(t):
+            hit = set()
+            for a in t["args"]:
+                hit |= (g.slice(a, stop_at_calls=r"iter::Iterator::next$").locals() & state) - {item} - it_locals
+            return hit
+        if u["filter_visible"]:
+            ctx.check(R, "endpoints-use:%s" % role, True, "router.endpoints(..) consumed through %s: the iterator is filtered on the element's `visible` before the loop sees it" % via, (f, u["bb"]))
+            unguarded = set()
+        else:
+            guards = _visible_guard(m, (nbb, nt))
+            ctx.check(R, "one-visibility-guard" + sfx, len(guards) == 1, "branches on the iterated endpoint's `visible` in the loop (%s): %d" % (via, len(guards)), (g, nbb))
+            if len(guards) != 1:
+                continue
+            sb, pub, skip = guards[0]
+            r = g.reachable(skip, avoid=[nbb])
+            calls, stores = [], []
+            for b in r:
+                t = g.blocks[b]["term"]
+                if t["t"] == "call" and touches_state(t):
+                    calls.append((t.get("callee"), b))
+                for st in g.blocks[b]["st"]:
+                    if st["s"] == "assign" and (st["pl"]["l"] in state or (st["rv"]["rv"] == "ref" and st["rv"].get("mut") and st["rv"]["pl"]["l"] in state - it_locals)):
+                        stores.append(b)
+            ctx.check(R, "skip-edge-writes-nothing" + sfx, not calls and not stores and nbb in g.reachable(skip),
+                      "from the `visible == false` edge the loop continues with the next endpoint (%s) through %d blocks; calls / stores touching the document or the %d other accumulators: %s %s" % (
+                          nbb in g.reachable(skip), len(r), len(state) - 1, calls, stores), (g, sb))
+            unguarded = g.reachable(nbb, avoid_edges=[(sb, pub)])
+        nsites = 0
+        for b in sorted(body):
+            t = g.blocks[b]["term"]
+            if t["t"] == "call" and t["args"] and b != nbb:
+                o = m.flow.origins(g, t["args"][0])
+                on_doc = (g.id, m.doc) in o.locals
+                if on_doc or (not is_op and touches_state(t)):
+                    nsites += 1
+                    ctx.check(R, "%s:%s" % ("doc-write-guarded" if is_op else "state-write-guarded" + sfx, (t.get("callee") or "?").split("::")[-1].split("<")[0]), b not in unguarded,
+                              "call %s on %s inside the loop %s reachable in an iteration only for an endpoint whose `visible` is true" % (
+                                  t.get("callee"), "the document" if on_doc else "state that outlives the iteration", "is" if b not in unguarded else "is NOT"), (g, b))
+            for st in g.blocks[b]["st"]:
+                if st["s"] == "assign" and st["pl"]["l"] == m.doc and st["pl"]["p"]:
+                    nsites += 1
+                    ctx.check(R, "doc-store-guarded" + sfx, b not in unguarded, "store into the document inside the loop is guarded by `visible`: %s" % (b not in unguarded), (g, b))
+        if is_op:
+            ctx.check(R, "doc-write-sites", nsites >= 2, "writes to the document inside the operation loop: %d" % nsites, g, nontrivial=False)
+    ctx.check(R, "operation-loop-examined", seen_op, "the loop that fills `paths` is one of the examined consumers of router.endpoints(..)", g, nontrivial=False)
     # who reads `visible`
     readers = {}
     for f, bb, owner in field_reads(ds, m.tw, "visible"):
         if owner == EP:
-            readers.setdefault(root_fn(ds, f).id, (f, bb))
+            readers.setdefault(root_of(ds, f).id, (f, bb))
     for rid, (f, bb) in sorted(readers.items()):
         ok = rid in VISIBLE_READERS
         ctx.check(R, "visible-reader:%s" % rid, ok, "%s reads ApiEndpoint.visible: %s" % (rid, VISIBLE_READERS.get(rid, "NOT a reviewed reader — routing must not depend on it")), (f, bb))
@@ -469,11 +597,9 @@ def r3_placement(ctx):
         if len(lit) != 1:
             continue
         other = [a for a, oa in sides if a is not lit[0][0]][0]
-        sw = [(sb, st) for sb, st in g.switches() if operand_local(st["discr"]) == t["dest"]["l"]]
-        if len(sw) != 1:
-            continue
-        tb, fb = g.bool_edges(sw[0][0])
-        tests.append({"lit": sorted(lit[0][1].lits)[0], "sw": sw[0][0], "tb": tb, "other": other, "bb": bb})
+        # switches on the comparison's result or on a let-bound copy of it (path facts over the whole of gen_openapi exceed the state budget)
+        edges = [(sb, g.bool_edges(sb)[0]) for sb, st in switches_on_value(g, t["dest"]["l"])]
+        tests.append({"lit": sorted(lit[0][1].lits)[0], "other": other, "bb": bb, "edges": [(sb, tb) for sb, tb in edges if tb is not None]})
     seen = {}
     for bb, i, st in g.stmts():
         rv = st["rv"]
@@ -486,7 +612,8 @@ def r3_placement(ctx):
         if not (isinstance(last, dict) and "f" in last):
             continue
         slot = fs[-1][2]
-        doms = [t for t in tests if g.edge_dominates(t["sw"], t["tb"], bb)]
+        # the method tests known TRUE on every path to this borrow (match arm, if-chain, guard, named flag alike)
+        doms = [t for t in tests if any(g.edge_dominates(sb, tb, bb) for sb, tb in t["edges"])]
         if len(doms) != 1:
             ctx.check(R, "slot:%s" % slot, False, "PathItem.%s is selected by %d method tests (expected exactly one)" % (slot, len(doms)), (g, bb))
             continue
@@ -522,28 +649,41 @@ def r3_placement(ctx):
         btw = _between(g, t["args"][1])
         ctx.check(R, "path-key-is-iterator-path", comp == {0} and not btw, "paths.entry key is the iterator's path component, unmodified: components %s callees %s" % (sorted(comp), btw), (g, bb))
     # the operation and where it goes
+    # `slot.replace(op)` / `slot.insert(op)` / `*slot = Some(op)` where slot borrows a PathItem field
     reps = []
     for bb, t in g.live_calls(r"option::Option::<T>::(replace|insert|get_or_insert)$"):
         o = m.flow.origins(g, t["args"][0])
         hit = set(n for a, n in o.fields if a == "openapiv3::PathItem")
-        if hit:
-            reps.append((bb, t, o, hit))
+        if hit and len(t["args"]) > 1:
+            reps.append((bb, t["args"][1], o, hit))
+    by_bb = {}
+    for sbb, kind, node, tgt, vals in mutators(g):
+        if kind != "store" or sbb not in g.reachable(0) or node["pl"]["p"] != ["*"]:
+            continue
+        fs = m.tw.fields_of_place(g, tgt)
+        if fs and fs[-1][0] == "openapiv3::PathItem" and fs[-1][2] in slots:
+            e = by_bb.setdefault(sbb, {"hit": set(), "node": node, "vals": vals})
+            e["hit"].add(fs[-1][2])
+    for sbb, e in sorted(by_bb.items()):
+        if e["vals"]:
+            reps.append((sbb, e["vals"][0], m.flow.origins(g, {"k": "copy", "pl": {"l": e["node"]["pl"]["l"], "p": []}}), e["hit"]))
     ctx.check(R, "one-operation-store", len(reps) == 1, "sites storing the operation into a PathItem slot: %d" % len(reps), g, nontrivial=False)
     opw = [(bb, ops) for adt, var, field, kind, bb, ops in field_writes(g, m.tw, lambda a: a == "openapiv3::Operation") if field == "operation_id" and bb in g.reachable(0)]
-    for bb, t, o, hit in reps:
+    for bb, vop, o, hit in reps:
         ctx.check(R, "store-slot-from-table", hit == set(slots) and (ebb is None or (g.id, ebb) in o.call_sites),
                   "the slot written is one of the table's %d slots of the PathItem obtained from paths.entry(path): slots %s" % (len(slots), sorted(hit)), (g, bb))
-        guards = _visible_guard(m)
-        if len(guards) == 1:
-            sb, pub, skip = guards[0]
+        start = _published_start(m)
+        if start is not None:
+            how, sb, pub = start
             lost = nbb in g.reachable(pub, avoid=[bb])
-            ctx.check(R, "operation-always-stored", not lost, "every non-panicking path of a published iteration stores the operation: %s" % (not lost), (g, bb))
+            ctx.check(R, "operation-always-stored", not lost, "every non-panicking path of an iteration for a published endpoint (%s) stores the operation: %s" % (
+                "after the in-loop `visible` test" if how == "guard" else "the iterator is filtered on `visible`", not lost), (g, bb))
         oploc = set()
         for wbb, ops in opw:
             for st in g.blocks[wbb]["st"]:
                 if st["s"] == "assign" and st["pl"]["p"] and st["pl"]["p"][-1].get("n") == "operation_id" if isinstance(st["pl"]["p"][-1], dict) else False:
                     oploc.add(st["pl"]["l"])
-        ok = bool(oploc) and any(g.slice(t["args"][1]).touches_local(l) for l in oploc) if len(t["args"]) > 1 else False
+        ok = bool(oploc) and any(g.slice(vop).touches_local(l) for l in oploc)
         ctx.check(R, "stored-value-is-the-operation", ok, "the value stored is the Operation whose operation_id was set: %s" % ok, (g, bb))
     ctx.check(R, "one-operation-id-write", len(opw) == 1, "writes to Operation.operation_id: %d" % len(opw), g, nontrivial=False)
     for bb, ops in opw:
@@ -560,20 +700,34 @@ def r3_placement(ctx):
 
 
 # --------------------------------------------------------------------------- R4
-def _definitions_local(m):
-    """The side table of Static dependencies: the named IndexMap<String, schemars Schema> local whose
-    into_iter feeds the for_each that inserts into components.schemas."""
+def _schema_flushes(m):
+    """Every store into components.schemas under gen_openapi (insert / entry().or_insert*; in a `for` loop of gen_openapi
+    or in the closure of a `for_each`): [(anchor block in gen_openapi, origins of the stored key and value)].
+    The anchor is the block that must lie on every path to return for the flush to happen: the loop head
+    (Iterator::next feeding the stored key) or the adaptor call that receives the closure."""
     g = m.gen
-    flushes = []
-    for bb, t in g.live_calls(r"iter::Iterator::for_each$"):
-        ins = False
-        for c, node in closure_args_of_call(g, t):
-            for ibb, it in c.live_calls(r"indexmap::IndexMap::<K, V, S>::insert$"):
-                if ("openapiv3::Components", "schemas") in m.flow.origins(c, it["args"][0]).fields:
-                    ins = True
-        if ins:
-            flushes.append((bb, t, m.flow.origins(g, t["args"][0])))
-    return flushes
+    out = []
+    for f in m.region:
+        for bb, kop, vop in map_stores(m.flow, f, ("openapiv3::Components", "schemas")):
+            o = Origins()
+            o.update(m.flow.origins(f, kop))
+            o.update(m.flow.origins(f, vop))
+            anchors = []
+            if f.id == g.id:
+                anchors = [nb for c, nb, nt in g.slice(kop).calls(r"iter::Iterator::next$")]
+            else:
+                cur = f
+                for _ in range(6):
+                    sites = m.flow.closure_sites(cur)
+                    if not sites:
+                        break
+                    p_, pbb, pst = sites[0]
+                    if p_.id == g.id:
+                        anchors = [cbb for cbb, ct, k in m.flow.closure_receivers(p_, pst)]
+                        break
+                    cur = p_
+            out.append((anchors, o, (f, bb)))
+    return out
 
 
 def r4_refs_resolve(ctx):
@@ -582,25 +736,27 @@ def r4_refs_resolve(ctx):
                  "error response is stored in components.responses under the name its reference was formatted from", floor=20)
     m = _model(ctx, R)
     ds, g = m.ds, m.gen
-    flushes = _definitions_local(m)
-    gen_flush = [x for x in flushes if any(c.endswith("into_root_schema_for") for c in x[2].calls)]
+    flushes = _schema_flushes(m)
+    gen_flush = [x for x in flushes if any(c.endswith("into_root_schema_for") for c in x[1].calls)]
     def_flush = [x for x in flushes if x not in gen_flush]
     D = None
     if len(def_flush) == 1:
-        cands = [l for (fid, l) in def_flush[0][2].locals if fid == g.id and g.local_name(l) and
+        cands = [l for (fid, l) in def_flush[0][1].locals if fid == g.id and g.local_name(l) and
                  g.local_ty(l).startswith("indexmap::IndexMap<std::string::String, schemars::schema::Schema")]
         D = cands[0] if len(cands) == 1 else None
     if D is None:
-        ctx.lost(R, "the `definitions` side table (IndexMap flushed into components.schemas after the loop)")
+        ctx.lost(R, "the `definitions` side table (the IndexMap<String, Schema> whose entries are stored into components.schemas after the loop)")
         return
     news = [(f, bb) for f in m.region for bb, t in f.live_calls(r"^schemars::SchemaGenerator::new$")]
     ctx.check(R, "one-generator", len(news) == 1, "schemars::SchemaGenerator::new sites under gen_openapi: %d" % len(news), g)
-    for bb, t, o in gen_flush:
-        ctx.check(R, "generator-definitions-flushed", g.must_pass([bb]) and any(c.endswith("SchemaGenerator::new") for c in o.calls) and ("schemars::schema::RootSchema", "definitions") in o.fields,
-                  "generator.into_root_schema_for().definitions is written to components.schemas on every path to return: %s" % g.must_pass([bb]), (g, bb))
+    for anchors, o, site in gen_flush:
+        mp = bool(anchors) and g.must_pass(anchors)
+        ctx.check(R, "generator-definitions-flushed", mp and any(c.endswith("SchemaGenerator::new") for c in o.calls) and ("schemars::schema::RootSchema", "definitions") in o.fields,
+                  "generator.into_root_schema_for().definitions is written to components.schemas on every path to return: %s" % mp, site)
     ctx.check(R, "generator-flush-present", len(gen_flush) == 1, "flushes of the generator's definitions: %d" % len(gen_flush), g, nontrivial=False)
-    for bb, t, o in def_flush:
-        ctx.check(R, "definitions-flushed", g.must_pass([bb]), "`definitions` is written to components.schemas on every path to return: %s" % g.must_pass([bb]), (g, bb))
+    for anchors, o, site in def_flush:
+        mp = bool(anchors) and g.must_pass(anchors)
+        ctx.check(R, "definitions-flushed", mp, "`definitions` is written to components.schemas on every path to return: %s" % mp, site)
     # the five (today) destructuring sites
     nsites = 0
     for f in m.region:
@@ -679,25 +835,28 @@ def r4_refs_resolve(ctx):
             # the loop over error_responses is reached on every path to return
             heads = [b for (fid, b) in k.call_sites if fid == g.id and re.search(r"IntoIterator::into_iter$", g.blocks[b]["term"].get("callee") or "")]
             ctx.check(R, "error-responses-flushed", bool(heads) and all(g.must_pass([b]) for b in heads), "the loop storing error responses runs on every path to return", (g, bb))
+        # the error reference goes under both the 4xx and the 5xx range (two inserts, or one insert in a loop over [4, 5])
         refs = []
-        for bb, t in g.live_calls(r"indexmap::IndexMap::<K, V, S>::insert$"):
-            if len(t["args"]) < 3:
-                continue
-            v = m.flow.origins(g, t["args"][2])
+        for bb, kop, vop in map_stores(m.flow, g, ("openapiv3::Responses", "responses")):
+            v = m.flow.origins(g, vop)
             if (er_adt, "reference") in v.fields:
-                refs.append((bb, t, v))
-        for bb, t, v in refs:
+                refs.append((bb, kop, v))
+        covered = set()
+        for bb, kop, v in refs:
             okr = any(c.endswith("or_insert_with") for c in v.calls)
-            kk = m.flow.origins(g, t["args"][1])
+            kk = m.flow.origins(g, kop)
             rng = sorted(a[1] for a in kk.aggs if a[0] == "openapiv3::StatusCode")
-            for a in g.slice(t["args"][1]).atoms:
-                if a[0] == "lit" and a[2] in ("u16", "u8", "u32"):
+            cls = set()
+            for a in g.slice(kop).atoms:
+                if a[0] == "lit" and a[2] in ("u16", "u8", "u32", "i32", "usize"):
                     try:
-                        rng.append("%sxx" % __import__("json").loads(a[1])["int"])
+                        cls.add("%sxx" % __import__("json").loads(a[1])["int"])
                     except Exception:
                         pass
-            ctx.check(R, "error-ref-is-entry-reference:%s" % "+".join(rng), okr, "the 4xx/5xx response is the `reference` of the error_responses entry that will be stored: %s" % okr, (g, bb))
-        ctx.check(R, "error-ref-sites", len(refs) == 2, "operation.responses inserts of an error reference: %d" % len(refs), g, nontrivial=False)
+            if rng == ["Range"]:
+                covered |= cls
+            ctx.check(R, "error-ref-is-entry-reference:%s" % "+".join(rng + sorted(cls)), okr, "the 4xx/5xx response is the `reference` of the error_responses entry that will be stored: %s" % okr, (g, bb))
+        ctx.check(R, "error-ref-sites", covered == {"4xx", "5xx"}, "status ranges under which operation.responses gets the error reference: %s (expected 4xx and 5xx)" % sorted(covered), g, nontrivial=False)
 
 
 # --------------------------------------------------------------------------- R4b
@@ -916,15 +1075,37 @@ def r5_determinism(ctx):
                     not callee_allow(c.slice({"l": 0, "p": []}), PLUMBING + [r"cmp::Ord::cmp$", r"cmp::Ordering::reverse$"])
         ctx.check(R, "tags-sorted-by-name", okc, "openapi.tags.sort_by compares the two elements' `name` with Ord::cmp: %s" % okc, (g, sb))
     ctx.check(R, "tags-sort-present", len(sorts) >= 1, "sorts of openapi.tags: %d" % len(sorts), g, nontrivial=False)
-    disj = False
+    # ad hoc tags are disjoint from the configured ones: an endpoint tag is kept only when tag_config.tags.contains_key(tag) is FALSE —
+    # as the predicate of a `.filter(..)` (the closure returns the negated test) or as a guard around the insertion in a loop
+    found, good = 0, 0
+    ret = {"k": "copy", "pl": {"l": 0, "p": []}}
+    fl = Flow(ds, entries=[g.raw["id"]])
     for f in m.region:
         for bb, t in f.live_calls(r"HashMap::<K, V, S, A>::contains_key$"):
-            fl = Flow(ds, entries=[g.raw["id"]])
-            o = fl.origins(f, t["args"][0])
-            ret = f.slice({"l": 0, "p": []})
-            if ("api_description::TagConfig", "tags") in o.fields and ("unop", "Not") in ret.atoms and any(b == bb for c, b, tt in ret.callees):
-                disj = True
-    ctx.check(R, "tag-sources-disjoint", disj, "ad-hoc endpoint tags are kept only if !tag_config.tags.contains_key(tag): names in openapi.tags are unique, so the sort fixes the order: %s" % disj, g)
+            if len(t["args"]) < 2 or ("api_description::TagConfig", "tags") not in fl.origins(f, t["args"][0]).fields:
+                continue
+            found += 1
+            dest = t["dest"]["l"]
+            is_test = lambda fn, op, dest=dest: not op["pl"]["p"] and op["pl"]["l"] == dest
+            ok = False
+            if f.raw["kind"] == "Closure" and _polarity(f, ret, leaf=is_test) is False:
+                recv = [ct for p_, pbb, pst in fl.closure_sites(f) for cbb, ct, k in fl.closure_receivers(p_, pst)]
+                ok = bool(recv) and all(re.search(r"iter::Iterator::filter$", ct.get("callee") or "") for ct in recv)
+            if not ok:
+                key_src = set(b for c, b, tt in f.slice(t["args"][1]).calls(r"iter::Iterator::next$"))
+                absent = []
+                for sb, st in f.switches():
+                    pol = _polarity(f, st["discr"], leaf=is_test)
+                    if pol is not None:
+                        tb, fb = _bool_targets(f, sb)
+                        absent.append((sb, fb if pol else tb))
+                ins = [mbb for mbb, kind, node, tgt, vals in mutators(f) if kind == "call" and key_src and
+                       any(set(b for c, b, tt in f.slice(v).calls(r"iter::Iterator::next$")) & key_src for v in vals)]
+                ok = bool(ins) and bool(absent) and all(any(f.edge_dominates(sb, ab, mbb) for sb, ab in absent) for mbb in ins)
+            good += 1 if ok else 0
+    disj = found >= 1 and good == found
+    ctx.check(R, "tag-sources-disjoint", disj, "ad-hoc endpoint tags are kept only if tag_config.tags.contains_key(tag) is false (filter predicate or guard around the insertion; %d of %d "
+              "membership tests): names in openapi.tags are unique, so the sort fixes the order: %s" % (good, found, disj), g)
     bad = []
     for fid in reg:
         for bb, t in ds.F[fid].live_calls():
